@@ -248,8 +248,16 @@ def gen_cases(ctx, n):
                 cases[-1]["how"] = rng.choice(["pos", "enum"])
         else:
             ln = rng.choice([0, 5, 9, 10, 13, 14, 15, 17, 18, 21, 22, 25, 26, 27, 30, 60])
+            bs = [rng.randrange(256) for _ in range(ln)]
+            if rng.random() < 0.5:
+                # structured: a full header, then 0-3 argument words with edge values (0, 1, max, random) and a
+                # payload that may end inside the next word
+                bs = [rng.randrange(256) for _ in range(14)]
+                for _ in range(rng.randrange(4)):
+                    bs += list(struct.pack("<I", rng.choice([0, 0, 1, 0xffffffff, 0x80000000, rng.randrange(1 << 32)])))
+                bs += [rng.choice([0, rng.randrange(256)]) for _ in range(rng.choice([0, 0, 1, 2, 3, 4, 7]))]
             cases.append({"kind": "dec", "proto": rng.choice(["sdp", "scp", "scp"]),
-                          "bytes": [rng.randrange(256) for _ in range(ln)],
+                          "bytes": bs,
                           "n_args": rng.randrange(5)})
             if rng.random() < 0.3:
                 cases[-1]["buf"] = rng.choice(["bytearray", "memoryview"])
